@@ -1,5 +1,5 @@
 (** C03 — a purchase swaps entitlements atomically; a listing sells at most once. *)
-From FM Require Import Offer.
+From FM Require Import Offer CallSeq.
 
 (** A successful purchase does both halves in one transition: the listing is re-filed under
     the buyer, closed, with the buyer as its only claimant, and the bucket is re-filed under the
@@ -60,6 +60,39 @@ Theorem C03_only_claimant_withdraws : forall o e sender fs s id k l,
   execute o e sender fs (WithdrawPurchased id) s = Err.
 Proof. exact foreign_withdraw_refused. Qed.
 Print Assumptions C03_only_claimant_withdraws.
+
+(** ** Under every interleaving (proofs/CallSeq.v)
+
+    CosmWasm commits a contract's state before dispatching its messages and rolls a failing call
+    back, so whatever happens around the marketplace — competing users, contracts re-entering
+    at any depth in the middle of any dispatch — its state evolves by a sequence of successful
+    [execute] calls with arbitrary senders, coins, oracle answers and block times: [mreach].
+    The once-only clauses hold along every such sequence; no model of the chain, no schedule and
+    no bound on nesting is involved. *)
+Theorem C03_sold_once_under_every_interleaving : forall s o e a fs l_id b_id s1 out s2 o' e' a' fs' b_id',
+  Inv s -> execute o e a fs (BuyListing l_id b_id) s = Ok (s1, out) -> mreach s1 s2 ->
+  is_ok (execute o' e' a' fs' (BuyListing l_id b_id') s2) = false.
+Proof. exact sold_once. Qed.
+Print Assumptions C03_sold_once_under_every_interleaving.
+
+Theorem C03_listing_claimed_once_under_every_interleaving : forall s o e a fs m id s1 out s2 o' e' a' fs' m',
+  Inv s -> execute o e a fs m s = Ok (s1, out) -> exits_l_b m id = true -> mreach s1 s2 ->
+  exits_l_b m' id = true ->
+  is_ok (execute o' e' a' fs' m' s2) = false.
+Proof. exact listing_claimed_once. Qed.
+Print Assumptions C03_listing_claimed_once_under_every_interleaving.
+
+Theorem C03_bucket_claimed_once_under_every_interleaving : forall s o e a fs id s1 out s2 o' e' a' fs',
+  Inv s -> execute o e a fs (RemoveBucket id) s = Ok (s1, out) -> mreach s1 s2 ->
+  is_ok (execute o' e' a' fs' (RemoveBucket id) s2) = false.
+Proof. exact bucket_claimed_once. Qed.
+Print Assumptions C03_bucket_claimed_once_under_every_interleaving.
+
+Theorem C03_exited_listing_never_sold : forall s o e a fs m id s1 out s2 o' e' a' fs' b_id',
+  Inv s -> execute o e a fs m s = Ok (s1, out) -> exits_l_b m id = true -> mreach s1 s2 ->
+  is_ok (execute o' e' a' fs' (BuyListing id b_id') s2) = false.
+Proof. exact exited_listing_not_sold. Qed.
+Print Assumptions C03_exited_listing_never_sold.
 
 Definition ask1 : gbal := mkG [(3, 5)] [] [].
 Definition winit : world :=
